@@ -252,6 +252,151 @@ def regvalue_rule(ctx, facts):
                       "(1 - log_b x) and shifts every register by one" % cand[:140])
 
 
+def _is_exp1_sample(n):
+    if n["k"] != "MethodCall" or n["name"] != "sample":
+        return False
+    for x in [n["recv"]] + n["args"]:
+        x = nf.strip_casts(x)
+        if x["k"] in ("Path", "Struct") and str(x.get("res", {}).get("path", "")).endswith("Exp1"):
+            return True
+    return False
+
+
+def _range_of(it):
+    """(lo, hi_exclusive_offset, hi, reversed) of the iterated range: `lo..hi`, `lo..=hi`, optionally `.rev()`; None if another shape"""
+    it = nf.strip_casts(it)
+    rev = False
+    while it["k"] == "MethodCall" and it["name"] in ("rev", "into_iter") and not it["args"]:
+        rev = rev != (it["name"] == "rev")
+        it = nf.strip_casts(it["recv"])
+    if it["k"] == "Struct" and it.get("res", {}).get("path") == "std::ops::Range":
+        f = {x["name"]: x["e"] for x in it["fields"]}
+        return f["start"], f["end"], 0, rev
+    if it["k"] == "Call" and short(it.get("callee", "")) == "new" and "RangeInclusive" in it.get("callee", "") and len(it["args"]) == 2:
+        return it["args"][0], it["args"][1], 1, rev
+    return None
+
+
+def spacing_rule(ctx, facts):
+    """SPACING: the points offered to the registers are the cumulated exponential spacings of the SetSketch1 sequence:
+    x_t = x_(t-1) + Exp(1) / (a * (m - t)) for t = 0..m-1 with x_(-1) = 0 (Ertl 2021, algorithm 'SetSketch1'). Decided as an
+    equality of rational functions (pmh/ratfn.py), with the loop variable expressed by the iteration number t."""
+    from .. import ratfn
+    ctx.rule("SPACING", "in SetSketcher::sketch the t-th point of an item is x_t = x_(t-1) + Exp1 / (self.a * (self.m - t)), x_(-1) = 0: "
+                        "the coefficient of the Exp1 sample is that rational function of the iteration number (any algebraic form), "
+                        "the sum is carried from one iteration to the next and starts from 0")
+    fid = SS + "sketch"
+    fn = facts.fn(fid)
+    t = tree_of(fn)
+    R = resolver_of(fn)
+    sites = [n for n in user_nodes(fn) if _is_exp1_sample(n)]
+    if len(sites) != 1:
+        ctx.violation("SPACING", fid, "cannot-establish: Exp1 sample", hirq.loc(fn), "expected one `sample(Exp1)` site in sketch, found %d" % len(sites))
+        return
+    S = sites[0]
+    loops = [fl for fl in for_loops(fn) if t.contains(fl["body"], S)]
+    if not loops:
+        ctx.violation("SPACING", fid, "cannot-establish: draw loop", hirq.loc(S), "the Exp1 sample is not inside a `for` loop over a range")
+        return
+    fl = loops[-1]
+    rg = _range_of(fl["iter"])
+    if rg is None or fl["pat"].get("k") != "Bind":
+        ctx.violation("SPACING", fid, "cannot-establish: loop range", hirq.loc(fl["loop"]),
+                      "the draw loop does not iterate a range `lo..hi` / `lo..=hi` (optionally reversed) with a plain loop variable: `%s`" % nf.nf(fl["iter"])[:80])
+        return
+    lo, hi, incl, rev = rg
+    jname = fl["pat"]["name"]
+    T = (ratfn.p_atom("#t"), ratfn.ONE)
+    rl, rh = ratfn.rat(lo, R), ratfn.rat(hi, R)
+    if not rev:
+        jt = (ratfn.p_add(ratfn.p_mul(rl[0], T[1]), ratfn.p_mul(T[0], rl[1])), ratfn.p_mul(rl[1], T[1]))          # lo + t
+    else:
+        last = (ratfn.p_add(rh[0], ratfn.p_mul(ratfn.p_const(1 - incl), rh[1]), -1), rh[1])                          # hi - 1 (or hi)
+        jt = (ratfn.p_add(last[0], ratfn.p_mul(T[0], last[1]), -1), last[1])                                          # last - t
+    # the statement holding the sample
+    st = S
+    while True:
+        par = t.parent.get(id(st))
+        if par is None or par["k"] in ("Let", "Assign", "AssignOp"):
+            st = par
+            break
+        st = par
+    if st is None:
+        ctx.violation("SPACING", fid, "cannot-establish: sample statement", hirq.loc(S), "the Exp1 sample is not the initialiser of a `let` or the right side of an assignment")
+        return
+    E = st["init"] if st["k"] == "Let" else st["r"]
+    sub = {id(S): (ratfn.p_atom("#E"), ratfn.ONE)}
+    r = ratfn.rat(E, R, sub)
+    lin = ratfn.linear_in(r, "#E")
+    if lin is None:
+        ctx.violation("SPACING", fid, "not linear in the sample", hirq.loc(st), "`%s` is not of the form A + C * Exp1" % nf.nf(E, True)[:100])
+        return
+    A, C = lin
+    C = ratfn.substitute(C, jname, jt)
+    a_, m_ = (ratfn.p_atom("self.a"), ratfn.ONE), (ratfn.p_atom("self.m"), ratfn.ONE)
+    want = (ratfn.ONE, ratfn.p_mul(a_[0], ratfn.p_add(m_[0], T[0], -1)))
+    if ratfn.equal(C, want):
+        ctx.ok("SPACING", fid, "coefficient of Exp1 at iteration t = %s" % ratfn.show(C), hirq.loc(S))
+    else:
+        ctx.violation("SPACING", fid, "spacing rate", hirq.loc(S),
+                      "the coefficient of the Exp1 sample at iteration t is `%s`, expected 1/(self.a*(self.m - t)): the points are not the "
+                      "order statistics of m exponentials of rate a, registers are offered too small or too large values" % ratfn.show(C)[:160])
+    # the carried sum
+    carry = None
+    if st["k"] == "AssignOp" and st["op"] in ("+", "+=") and nf.strip(st["l"])["k"] == "Path" and ratfn.equal(A, (ratfn.ZERO, ratfn.ONE)):
+        carry = nf.strip(st["l"])["res"]
+        target = carry
+    else:
+        for x in user_nodes(fn):
+            if x["k"] == "Path" and "local" in x["res"] and t.contains(E, x) and ratfn.equal(A, (ratfn.p_atom(x["res"]["name"]), ratfn.ONE)):
+                carry = x["res"]
+                break
+        target = st["pat"] if st["k"] == "Let" and st["pat"].get("k") == "Bind" else (nf.strip(st["l"])["res"] if st["k"] == "Assign" and nf.strip(st["l"])["k"] == "Path" else None)
+    if carry is None:
+        ctx.violation("SPACING", fid, "no carried sum", hirq.loc(st),
+                      "`%s`: the part that does not multiply the sample is `%s`, expected the previous point (one mutable local)" % (nf.nf(E, True)[:80], ratfn.show(A)[:60]))
+        return
+    cid = carry["local"]
+    # initial value 0 and the hand-over x_pred = x_j on every iteration
+    lets = [x for x in user_nodes(fn) if x["k"] == "Let" and x["pat"].get("k") == "Bind" and x["pat"]["id"] == cid]
+    init_ok = bool(lets) and "init" in lets[0] and not t.contains(fl["loop"], lets[0]) and ratfn.equal(ratfn.rat(lets[0]["init"], R), (ratfn.ZERO, ratfn.ONE))
+    if not init_ok:
+        ctx.violation("SPACING", fid, "carried sum start", hirq.loc(lets[0]) if lets else hirq.loc(st),
+                      "the carried point `%s` must be a local initialised to 0 before the draw loop" % carry["name"])
+    ws = [x for x in user_nodes(fn) if x["k"] in ("Assign", "AssignOp") and nf.strip(x["l"])["k"] == "Path" and nf.strip(x["l"])["res"].get("local") == cid]
+    body = fl["body"]
+    top = body["stmts"] + ([body["expr"]] if "expr" in body else [])
+    good = False
+    if st["k"] == "AssignOp":
+        good = len(ws) == 1 and any(s_ is st or (s_["k"] == "Semi" and s_.get("e") is st) for s_ in top)
+        how = "`%s += C*Exp1` at the top level of the loop body" % carry["name"]
+    else:
+        tid = target["id"] if target is not None and "id" in target else (target or {}).get("local")
+        hand = [x for x in ws if x["k"] == "Assign" and nf.strip(x["r"])["k"] == "Path" and nf.strip(x["r"])["res"].get("local") == tid]
+        if len(ws) == 1 and len(hand) == 1:
+            h = hand[0]
+            idx = [i for i, s_ in enumerate(top) if s_ is h or t.contains(s_, h) and s_["k"] in ("Semi",)]
+            direct = [i for i, s_ in enumerate(top) if s_ is h or (s_["k"] == "Semi" and s_.get("e") is h)]
+            if direct:
+                early = [x for x in t.nodes if x["k"] == "Continue" and t.contains(body, x) and any(t.contains(s_, x) for s_ in top[:direct[0]])]
+                good = not early
+        how = "`%s = %s` once, at the top level of the loop body, before any `continue`" % (carry["name"], (target or {}).get("name", "?"))
+    if good and init_ok:
+        ctx.ok("SPACING", fid, "points are cumulated: %s starts at 0, %s" % (carry["name"], how), hirq.loc(st))
+    elif not good:
+        ctx.violation("SPACING", fid, "carried sum hand-over", hirq.loc(st),
+                      "expected %s; found %d write(s) to %s" % (how, len(ws), carry["name"]))
+    # the value whose logarithm is offered is the new point
+    cand = setsketch_candidate(fn)
+    if cand is not None and target is not None:
+        name = target.get("name")
+        m_ = re.search(r"\((\w+)\.ln\(\)", cand.replace(" ", ""))
+        if m_ and m_.group(1) != name:
+            ctx.violation("SPACING", fid, "offered point", hirq.loc(st), "the register candidate takes the logarithm of `%s`, the cumulated point is `%s`" % (m_.group(1), name))
+        elif m_:
+            ctx.ok("SPACING", fid, "the candidate register value is computed from ln(%s)" % name, hirq.loc(st))
+
+
 def setsketch_candidate(fn):
     """resolved normal form of the candidate register value k (the value compared with the current register)"""
     t = tree_of(fn)
@@ -517,7 +662,15 @@ def _exit_setsketch(ctx, facts):
             fl = [f for f in for_loops(fn) if f["loop"] is loop]
             rng = nf.nf(fl[0]["iter"], True, res=R) if fl else "?"
             n += 1
-            if rng in ("std::ops::Range{start:0, end:self.m}", "std::ops::Range{start:0, end:self.k_vec.len()}"):
+            full = rng in ("std::ops::Range{start:0, end:self.m}", "std::ops::Range{start:0, end:self.k_vec.len()}")
+            if not full and fl and _range_of(fl[0]["iter"]) is not None:
+                # any range (inclusive, reversed) with m iterations: hi - lo (+1) == self.m as a polynomial
+                from .. import ratfn
+                lo_, hi_, incl_, _rev = _range_of(fl[0]["iter"])
+                a_, b_ = ratfn.rat(lo_, R), ratfn.rat(hi_, R)
+                cnt = (ratfn.p_add(ratfn.p_add(ratfn.p_mul(b_[0], a_[1]), ratfn.p_mul(a_[0], b_[1]), -1), ratfn.p_mul(ratfn.p_const(incl_), ratfn.p_mul(a_[1], b_[1]))), ratfn.p_mul(a_[1], b_[1]))
+                full = any(ratfn.equal(cnt, (ratfn.p_atom(x), ratfn.ONE)) for x in ("self.m", "self.k_vec.len()"))
+            if full:
                 ctx.ok("EXIT", fid, "draw loop ranges over 0..m (one draw per register)", hirq.loc(node))
             else:
                 ctx.violation("EXIT", fid, "draw range", hirq.loc(loop), "the draw loop of an item ranges over `%s`, not 0..self.m: some register is never offered a value of this item" % rng[:80])
